@@ -13,6 +13,7 @@ import json
 import os
 import subprocess
 import sys
+import tempfile
 from collections import Counter
 from concurrent.futures import ThreadPoolExecutor
 
@@ -33,7 +34,7 @@ RULE = ("one run = one fresh interpreter with a seeded PYTHONHASHSEED, simulated
 COMPONENTS = {
     "real": ["fcp.parser", "fcp.verifier + plug-in checks", "fcp.encoding", "fcp.serde + fcp.reflection",
              "fcp_dbc / fcp_can_c / fcp_cpp / fcp_nop Generator.generate", "binary reflection (serde.encode of FcpV2.reflection(), what `fcp encode` writes)", "jinja2 / cantools as used by the plug-ins"],
-    "stub": ["PYTHONHASHSEED and TZ of the worker interpreter", "process-wide simulated wall clock (datetime.datetime/date, time.time/localtime/strftime...), user (pwd/getpass/os.getlogin/USER) and host (socket/platform/os.uname) installed before the code under test is imported",
+    "stub": ["PYTHONHASHSEED, TZ, LC_ALL, COLUMNS and working directory of the worker interpreter", "process-wide simulated wall clock (datetime.datetime/date, time.time/localtime/strftime...), user (pwd/getpass/os.getlogin/USER) and host (socket/platform/os.uname) installed before the code under test is imported",
              "os.listdir returning a seeded permutation", "scratch output directory for fcp_can_c"],
 }
 ASSUMPTIONS = [
@@ -160,8 +161,12 @@ def run_worker(workload, hashseed):
     env["PYTHONPATH"] = str(VERIF_ROOT)
     env["PYTHONDONTWRITEBYTECODE"] = "1"
     env["TZ"] = workload.get("tz", "UTC")
+    env["LC_ALL"] = workload.get("lc_all", "C")
+    env["COLUMNS"] = str(workload.get("columns", 80))
+    # the worker may start in another directory (PYTHONPATH is absolute): relative paths must not leak into artefacts
+    cwd = {"verif": str(VERIF_ROOT), "root": "/", "tmp": tempfile.gettempdir()}.get(workload.get("cwd", "verif"), str(VERIF_ROOT))
     p = subprocess.run([sys.executable, "-c", "from simfcp.detworker import main; main()"], input=json.dumps(workload),
-                       capture_output=True, text=True, env=env, cwd=str(VERIF_ROOT), timeout=300)
+                       capture_output=True, text=True, env=env, cwd=cwd, timeout=300)
     lines = [l for l in p.stdout.splitlines() if l.startswith("RESULT ")]
     if p.returncode != 0 or not lines:
         raise RuntimeError(f"worker failed ({p.returncode}): {p.stderr[-1200:]}")
@@ -205,7 +210,9 @@ def gen_run(rng, pool):
            "host": rng.choice(["simhost", "build-17.example.org", "x",
                                "runner-7f9c4d5b6e-xk2lp.ci-namespace.svc.cluster.local.example-corporation.internal"]),
            "listperm": rng.choice([0, rng.randint(1, 1 << 30)]),
-           "tz": rng.choice(["UTC", "UTC", "Asia/Tokyo", "America/Los_Angeles", "Pacific/Kiritimati"])}
+           "tz": rng.choice(["UTC", "UTC", "Asia/Tokyo", "America/Los_Angeles", "Pacific/Kiritimati"]),
+           "lc_all": rng.choice(["C", "C", "C.UTF-8", "POSIX"]), "columns": rng.choice([80, 20, 300]),
+           "cwd": rng.choice(["verif", "verif", "root", "tmp"])}
     n = rng.randint(5, 15)
     ops = []
     swarm = {k: rng.random() < 0.7 for k in ("parse_text", "parse_file", "parse_broken", "verify", "layout", "reflection", "clock")}
@@ -252,7 +259,8 @@ def compare(base, ob):
 def judge_run(pool, cfg, sids, ops, probes=None, tr=None, distinct=None):
     probes = probes if probes is not None else Counter()
     w = {"schemas": {s: pool[s] for s in sids}, "ops": ops, "clock0": cfg["clock0"], "user": cfg["user"],
-         "host": cfg["host"], "listperm": cfg["listperm"], "tz": cfg.get("tz", "UTC")}
+         "host": cfg["host"], "listperm": cfg["listperm"], "tz": cfg.get("tz", "UTC"),
+         "lc_all": cfg.get("lc_all", "C"), "columns": cfg.get("columns", 80), "cwd": cfg.get("cwd", "verif")}
     out = run_worker(w, cfg["hashseed"])
     viol = []
     evals = 0
@@ -371,7 +379,8 @@ def minimise(v):
             if len(head) == 1 and fails([last], cfg):
                 head = []
     ops = head + [last]
-    for k, pristine in (("hashseed", 0), ("clock0", 1_700_000_000), ("user", "simuser"), ("host", "simhost"), ("listperm", 0), ("tz", "UTC")):
+    for k, pristine in (("hashseed", 0), ("clock0", 1_700_000_000), ("user", "simuser"), ("host", "simhost"), ("listperm", 0), ("tz", "UTC"),
+                        ("lc_all", "C"), ("columns", 80), ("cwd", "verif")):
         if cfg.get(k, pristine) != pristine:
             c2 = dict(cfg, **{k: pristine})
             if fails(ops, c2):
@@ -381,6 +390,6 @@ def minimise(v):
     out = dict(v, workload=dict(w, ops=ops, cfg=cfg), minimised=True)
     vs = [x for x in check_workload(out["workload"]) if x["signature"] == key]
     if vs:
-        needs = [k for k, p in (("hashseed", 0), ("clock0", 1_700_000_000), ("user", "simuser"), ("host", "simhost"), ("listperm", 0), ("tz", "UTC")) if cfg.get(k, p) != p]
+        needs = [k for k, p in (("hashseed", 0), ("clock0", 1_700_000_000), ("user", "simuser"), ("host", "simhost"), ("listperm", 0), ("tz", "UTC"), ("lc_all", "C"), ("columns", 80), ("cwd", "verif")) if cfg.get(k, p) != p]
         out["message"] = vs[0]["message"] + f" [minimised: {len(ops)} op(s); non-pristine ingredients still needed: {needs or 'none (history / tree reuse only)'}]"
     return out
